@@ -1321,9 +1321,13 @@ func (g *genCtx) tmplSliceMembers() {
 		// decorated one was built.
 		base := t - TSlice
 		ds := path[g.r.Intn(len(path))]
+		dt := t
+		if g.r.P(0.5) {
+			dt = base // ... or the other way round: the group of T is the decorated one
+		}
 		dec := g.newFunc(RoleDec)
-		dec.Params = []Param{{Kind: PObj, Fields: []Param{{Kind: PGroup, T: t, Group: grp}}}}
-		dec.Results = []Result{{Kind: RObj, Fields: []Result{{Kind: RGroup, T: t, Group: grp}}}}
+		dec.Params = []Param{{Kind: PObj, Fields: []Param{{Kind: PGroup, T: dt, Group: grp}}}}
+		dec.Results = []Result{{Kind: RObj, Fields: []Result{{Kind: RGroup, T: dt, Group: grp}}}}
 		dec.HasErr = g.r.P(0.3)
 		i := g.addOp(Op{Kind: OpDecorate, Scope: ds, Fn: dec.ID, Tag: "slice-members"})
 		if g.m.PredictDecorate(ds, dec) == PredOK {
